@@ -17,12 +17,16 @@ struct Opts {
     casts: bool,
     exhaustive_interp: bool,
     replay: Option<(String, String, u64)>,
+    /// after this instant the remaining cases of a thorough run use the quick domains
+    deadline: std::time::Instant,
 }
 
 fn domains_for(p: &Prepared, o: &Opts) -> Vec<(Domain, bool)> {
     let native = matches!(p.eval, Evaluator::Native(_));
-    // Rust debug profile: panics are slow, keep the quick domain
-    let thorough = o.thorough && p.profile != "debug";
+    // Rust debug profile: panics are slow, keep the quick domain.  An identity
+    // expression (the operand passed through) cannot depend on the input: quick domain.
+    // Past the work budget the remaining cases fall back to the quick domain (counted).
+    let thorough = o.thorough && p.profile != "debug" && p.case.template.trim() != VAR && std::time::Instant::now() < o.deadline;
     let exhaustive = if native { true } else { o.exhaustive_interp };
     let mut d = domain_for(&p.sem, thorough, o.seed, exhaustive);
     if p.profile == "release" && matches!(p.sem, Sem::Lift(Scalar::Char)) {
@@ -48,12 +52,34 @@ fn domains_for(p: &Prepared, o: &Opts) -> Vec<(Domain, bool)> {
 
 /// Evaluate all prepared cases of one backend (+ round trips in casts mode).
 fn evaluate(prepared: &[Prepared], o: &Opts, skip: &BTreeSet<String>, before: &mut dyn FnMut(&str), sink: &mut dyn FnMut(Outcome)) {
+    // casts: the expected function depends only on the source / destination widths, so the same
+    // expression on the same operand type with the same widths is evaluated once
+    let mut memo: BTreeMap<String, Outcome> = BTreeMap::new();
     for p in prepared {
         let key = format!("{}|{}", p.case.key(), p.profile);
         if skip.contains(&key) {
             continue;
         }
         before(&key);
+        let memo_key = match &p.sem {
+            Sem::Cast { steps, .. } if o.replay.is_none() => {
+                let (f, t) = (steps[0].0, steps.last().unwrap().1);
+                Some(format!("{}|{:?}|{:?}|{}|{}|{}|{}|{}", p.case.template, p.operand_ty, p.result_ty, p.profile, f.bits(), t.bits(), matches!(t, W::F32 | W::F64), matches!(f, W::P | W::L)))
+            }
+            _ => None,
+        };
+        if let Some(prev) = memo_key.as_ref().and_then(|k| memo.get(k)) {
+            let mut out = Outcome { key: key.clone(), prepared_backend: prev.prepared_backend.clone(), inst: p.case.inst.clone(), is_cast: true, template: prev.template.clone(), profile: prev.profile.clone(), stats: prev.stats.clone(), domain: prev.domain.clone(), witness: prev.witness.clone(), soft: prev.soft.clone(), reused: true };
+            for w in out.witness.values_mut() {
+                if let Some(m) = w.as_object_mut() {
+                    m.insert("instruction".into(), json!(p.case.inst));
+                    m.insert("expression".into(), json!(p.case.sample_result));
+                    m.insert("operand".into(), json!(p.case.sample_operand));
+                }
+            }
+            sink(out);
+            continue;
+        }
         let mut total: Option<Outcome> = None;
         for (d, sext) in domains_for(p, o) {
             let st = run_case(p, &d, sext);
@@ -80,6 +106,9 @@ fn evaluate(prepared: &[Prepared], o: &Opts, skip: &BTreeSet<String>, before: &m
         }
         let mut out = total.unwrap();
         out.key = key;
+        if let Some(k) = memo_key {
+            memo.insert(k, Outcome { key: out.key.clone(), prepared_backend: out.prepared_backend.clone(), inst: out.inst.clone(), is_cast: out.is_cast, template: out.template.clone(), profile: out.profile.clone(), stats: out.stats.clone(), domain: out.domain.clone(), witness: out.witness.clone(), soft: out.soft.clone(), reused: false });
+        }
         sink(out);
     }
     if o.casts {
@@ -92,7 +121,7 @@ fn evaluate(prepared: &[Prepared], o: &Opts, skip: &BTreeSet<String>, before: &m
                         continue;
                     }
                     before(&key);
-                    let thorough = o.thorough && up.profile != "debug";
+                    let thorough = o.thorough && up.profile != "debug" && std::time::Instant::now() < o.deadline;
                     let d = domain_for(&up.sem, thorough, o.seed, matches!(up.eval, Evaluator::Native(_)) || o.exhaustive_interp);
                     let st = run_roundtrip(up, down, &d);
                     let mut w = BTreeMap::new();
@@ -104,7 +133,7 @@ fn evaluate(prepared: &[Prepared], o: &Opts, skip: &BTreeSet<String>, before: &m
                                    "got": got.map(hex).unwrap_or_else(|| "trap".into()), "domain": d.describe()}),
                         );
                     }
-                    sink(Outcome { key, prepared_backend: up.case.backend.clone(), inst: format!("{u}+{dn}"), is_cast: true, template: format!("{} ; {}", up.case.template, down.case.template), profile: up.profile.clone(), stats: st, domain: d.describe(), witness: w, soft: None });
+                    sink(Outcome { key, prepared_backend: up.case.backend.clone(), inst: format!("{u}+{dn}"), is_cast: true, template: format!("{} ; {}", up.case.template, down.case.template), profile: up.profile.clone(), stats: st, domain: d.describe(), witness: w, soft: None, reused: false });
                 }
             }
         }
@@ -226,7 +255,8 @@ fn main() {
         }
         _ => None,
     };
-    let o = Opts { seed: args.seed(), thorough: args.thorough(), casts, exhaustive_interp: std::env::var("VERIF_EXPRSEM_EXHAUSTIVE").map(|v| v != "0").unwrap_or(true), replay };
+    let o = Opts { seed: args.seed(), thorough: args.thorough(), casts, exhaustive_interp: std::env::var("VERIF_EXPRSEM_EXHAUSTIVE").map(|v| v != "0").unwrap_or(true), replay,
+        deadline: std::time::Instant::now() + std::time::Duration::from_secs(std::env::var("VERIF_EXPRSEM_BUDGET_S").ok().and_then(|s| s.parse().ok()).unwrap_or(2400)) };
     let strict_zext = std::env::var("VERIF_C04_STRICT_ZEXT").map(|v| v == "1").unwrap_or(false);
     let prop = if casts { "C04" } else { "C14" };
     let mut rep = vkit::Report::new(if casts {
@@ -356,7 +386,11 @@ fn main() {
     let mut per_case: Vec<Value> = vec![];
     for oc in &outcomes {
         let s = &oc.stats;
-        rep.evals(s.evaluated);
+        if oc.reused {
+            rep.count("cast_kinds_sharing_an_identical_expression_run");
+        } else {
+            rep.evals(s.evaluated);
+        }
         if let (Some(soft), true) = (&oc.soft, s.bad.is_empty()) {
             // values agree but the generated code would not type-check: not a verdict of this property
             inconclusive.push((oc.prepared_backend.clone(), oc.inst.clone(), oc.template.clone(), format!("{soft}; all {} evaluated values agree with the canonical mapping", s.evaluated)));
@@ -387,6 +421,9 @@ fn main() {
         }
         for (class, (count, _, _, _)) in &s.bad {
             bad.entry((oc.prepared_backend.clone(), oc.inst.clone())).or_default().push((class.clone(), oc.witness.get(class).cloned().unwrap_or(Value::Null), *count, s.evaluated));
+        }
+        if args.thorough() && !oc.domain.starts_with("exhaustive") && oc.domain.starts_with("2^16") && oc.template.trim() != VAR && oc.profile != "debug" {
+            rep.count("thorough_cases_on_quick_domain_after_budget");
         }
         per_case.push(json!({"case": oc.key, "domain": oc.domain, "evaluated": s.evaluated, "ok": s.ok + s.ok_zero_ext + s.ok_sign_ext, "lenient": s.lenient, "bad": s.bad.values().map(|v| v.0).sum::<u64>()}));
     }
